@@ -19,6 +19,10 @@ fn main() {
         println!("HUNG-SUMMARY lines={} violations={}", lines.len(), bad);
         std::process::exit(if bad == 0 { 0 } else { 1 });
     }
+    if args.iter().any(|a| a == "--http") {
+        verif_harness::http::HTTP_MODE.store(true, std::sync::atomic::Ordering::SeqCst);
+        verif_harness::http::ensure_server();
+    }
     let seed: u64 = get("--seed", "1").parse().unwrap();
     let count: u64 = get("--count", "100").parse().unwrap();
     let prof = verif_harness::gen::profile(&get("--profile", "mixed"));
@@ -47,5 +51,7 @@ fn main() {
     if !stats_path.is_empty() {
         std::fs::write(&stats_path, serde_json::to_string_pretty(&stats).unwrap()).unwrap();
     }
+    let bad_http = verif_harness::http::BAD_REQUESTS.load(std::sync::atomic::Ordering::SeqCst);
+    if bad_http != 0 { eprintln!("drive: {} requests the scripted HTTP server could not interpret", bad_http); }
     eprintln!("drive: {} histories, {} ops, {} net calls, {} under lock, {} panics", stats.histories, stats.ops, stats.net_calls, stats.net_under_lock, stats.panics);
 }
